@@ -24,7 +24,7 @@ import propkit
 import vlib
 
 MANIFEST = {
-  "text": "proof: the cutoff rule (REAL clamp to [-c,c], POSITIVE min(x,c), c<=0 no-op, GEOMFROMTO and AXIS/QUATERNION exempt) and its equality with MuJoCo's apply_cutoff over R; the machine translations of the kernels _sensor_pos (all types but the 3 geom-distance ones), _sensor_vel, _limit_pos/_vel/_frc, _tendon_actuator_force_cutoff EQUAL readable models built from that cutoff function, for every scalar instance; every write of a _sensor_pos/_sensor_vel task lies in its sensor's slot and slots of different sensors are disjoint under MuJoCo's adr/dim invariant; kinetic energy >= 0 for PSD M, gravitational potential = -sum m g.x from the translated energy kernels; closed forms of clock/jointpos/jointvel/gyro/velocimeter/magnetometer/framepos. The ~60 individual sensor formulas, contact/touch/tactile sensors, spring energy of ball/free joints and everything float32 are covered by kernel validation and the differential oracle only.",
+  "text": "proof: the cutoff rule (REAL clamp to [-c,c], POSITIVE min(x,c), c<=0 no-op, GEOMFROMTO and AXIS/QUATERNION exempt) and its equality with MuJoCo's apply_cutoff over R; the machine translations of the kernels _sensor_pos (all types but the 3 geom-distance ones), _sensor_vel and _tendon_actuator_force_cutoff EQUAL readable models built from that cutoff function, for every scalar instance; a _limit_pos/_vel/_frc task writes nothing or the row's value through the cutoff function, and only for a limit row with efc_id = objid (that this ignores the sensor family is a recorded defect with a _refuted theorem); every write of a _sensor_pos/_sensor_vel task lies in its sensor's slot and slots of different sensors are disjoint under MuJoCo's adr/dim invariant; kinetic energy >= 0 for PSD M, gravitational potential = -sum m g.x from the translated energy kernels; closed forms of clock/jointpos/jointvel/gyro/velocimeter/magnetometer/framepos. The ~60 individual sensor formulas, contact/touch/tactile sensors, spring energy of ball/free joints and everything float32 are covered by kernel validation and the differential oracle only.",
   "note": "trusted: Coq kernel; bin/translate.py and the source-to-source step of bin/gens_sensor.py (inlining of the void writer functions, alias elimination, Coq-level lambda lifting) -- both validated on every run by re-executing traced real launches inside Coq; MuJoCo apply_cutoff transcribed by hand into Model/Sensor.v mj_cutoff (checked against the MuJoCo binary by the oracle); real-number axioms of Coq's Reals",
   "technique": "Rocq proof over kernels machine-translated from the source (T for kernels), translation validation on traced launches, differential oracle against MuJoCo C",
   "engine": "coq",
